@@ -198,6 +198,28 @@ fn lit_src(s: &str) -> String {
     format!("{:?}", s)
 }
 
+/// Other spellings of the same string value as a Rust literal: the macros receive tokens, not
+/// values, so `r"en-US"`, `"en\x2dUS"` and `"\u{65}n-US"` are different inputs to them and the
+/// same input to the run-time parser.  None for texts a spelling cannot express.
+fn lit_spellings(s: &str) -> Vec<(&'static str, String)> {
+    let mut v = vec![];
+    if !s.contains('"') && !s.contains('\r') {
+        v.push(("raw", format!("r\"{}\"", s)));
+        if !s.contains("\"#") {
+            v.push(("raw#", format!("r#\"{}\"#", s)));
+        }
+    }
+    if s.is_ascii() {
+        v.push(("hex escapes", format!("\"{}\"", s.bytes().map(|b| format!("\\x{:02x}", b)).collect::<String>())));
+    }
+    v.push(("unicode escapes", format!("\"{}\"", s.chars().map(|c| format!("\\u{{{:x}}}", c as u32)).collect::<String>())));
+    if s.len() >= 2 && s.is_char_boundary(1) {
+        // a line continuation inside the literal
+        v.push(("line continuation", format!("\"{}\\\n        {}\"", &lit_src(&s[..1])[1..lit_src(&s[..1]).len() - 1], &lit_src(&s[1..])[1..lit_src(&s[1..]).len() - 1])));
+    }
+    v
+}
+
 const PRELUDE_GOOD: &str = r#"#![allow(unused_imports, unused_unsafe, clippy::all)]
 use std::fmt::Debug;
 use std::str::FromStr;
@@ -241,11 +263,29 @@ fn gen_good(name: &str, invs: &[Inv], with_lists: bool) -> Bin {
     let mut src = String::from(PRELUDE_GOOD);
     let mut lines = BTreeMap::new();
     let mut line = src.matches('\n').count() as u32;
+    let mut nth = 0usize;
     for i in invs {
         line += 1;
         let l = lit_src(&i.lit);
         let _ = writeln!(src, "    t({}, || {{ let v: {} = {}({}); cmp(v, {}) }});", line, i.mac.ty(), i.mac.name(), l, l);
         lines.insert(line, LineKind::One(i.clone()));
+        // other spellings of the same literal (every 9th invocation, and every literal with a
+        // separator among the first hundred)
+        nth += 1;
+        if nth % 9 == 0 || (nth < 100 && i.lit.contains('-')) {
+            for (_what, sp) in lit_spellings(&i.lit) {
+                if sp.contains('\n') {
+                    line += 1; // the literal spans two source lines; the invocation starts on the first
+                    let _ = writeln!(src, "    t({}, || {{ let v: {} = {}({}); cmp(v, {}) }});", line, i.mac.ty(), i.mac.name(), sp, l);
+                    lines.insert(line, LineKind::One(i.clone()));
+                    line += 1; // (the continuation line reports nothing of its own)
+                } else {
+                    line += 1;
+                    let _ = writeln!(src, "    t({}, || {{ let v: {} = {}({}); cmp(v, {}) }});", line, i.mac.ty(), i.mac.name(), sp, l);
+                    lines.insert(line, LineKind::One(i.clone()));
+                }
+            }
+        }
     }
     if with_lists {
         // list macros over chunks, with and without a trailing comma
@@ -293,6 +333,18 @@ fn gen_bad(name: &str, invs: &[Inv]) -> Bin {
             let _ = writeln!(src, "    let _x = {}({});", i.mac.name(), l);
         }
         lines.insert(line, LineKind::One(i.clone()));
+        // the same ill-formed value in the other single-line spellings (every 20th): still an
+        // error at the invocation
+        if k % 20 == 7 {
+            for (_what, sp) in lit_spellings(&i.lit) {
+                if sp.contains('\n') {
+                    continue;
+                }
+                line += 1;
+                let _ = writeln!(src, "    let _x = {}({});", i.mac.name(), sp);
+                lines.insert(line, LineKind::One(i.clone()));
+            }
+        }
     }
     src.push_str("}\n");
     Bin { name: name.to_string(), src, lines }
